@@ -65,6 +65,15 @@ Theorem c06_allocate_cpuset : forall o st rq numa s,
 Proof. exact allocate_cpuset_spec. Qed.
 Print Assumptions c06_allocate_cpuset.
 
+(* a required FullPCPUs / SpreadByPCPUs policy that Allocate reports satisfied really is *)
+Theorem c06_required_policy_sound : forall o st rq numa s,
+  NoDup (map cid (o_topo o)) ->
+  allocate_cpuset o st rq numa = Some s -> r_required rq = true ->
+  (r_bind rq = 1 -> uniform_topo (o_topo o) = true -> cores_whole (o_topo o) s)
+  /\ (r_bind rq = 2 -> cores_distinct (o_topo o) s).
+Proof. exact allocate_policy_sound. Qed.
+Print Assumptions c06_required_policy_sound.
+
 (* ---- histories of Allocate+Update / Release / Update ---- *)
 (* the ledger equals the from-scratch sum over the live pods after every history *)
 Theorem c06_ledger : forall o ops,
